@@ -160,6 +160,13 @@ std::array<std::uint8_t, 32> Shamir::combine(const std::vector<ShamirShare>& sha
     static const auto log_table = build_log_table(exp_table);
 
     std::vector<ShamirShare> subset(shares.begin(), shares.begin() + threshold);
+    std::array<bool, 256> seen{};
+    for (const auto& share : subset) {
+        if (seen[share.index]) {
+            throw std::invalid_argument("duplicate share index");
+        }
+        seen[share.index] = true;
+    }
     return interpolate(subset, exp_table, log_table);
 }
 
